@@ -31,6 +31,10 @@ ast2pending: dict[type[ast.AST], type[PendingNode]] = {
 def convert(
     ast_root: ast.Module, symtable_root: symtable.SymbolTable, configs: Configs
 ) -> ast.expr:
+    # the symbol tables know the private names of a class (`__name`)
+    # by their mangled form (`_ClassName__name`)
+    ast_root = utils.mangle_private_names(ast_root)
+
     pending_node_stack: list[PendingNode] = []
     nsp_global = generate_nsp(symtable_root, configs)
     nsp_stack: list[Namespace] = [nsp_global]
